@@ -296,3 +296,29 @@ for _e in ENGINES:
 ENGINES.append({"name": "entryabs", "path": "/verif/sdpverif/entryabs.py", "serves_properties": ["C19"],
                 "kind_free_text": "E3 interpreter with recorders for open / read / DDLParser(...) / run(...) / os / json / pprint / sys.exit: the entry points evaluated abstractly on scenario tables"})
 CHECKS["C19"]["note"] = "Decided on scenario tables by abstract evaluation: the file system, real decoding of bytes and argparse's own behaviour are outside (trusted: open / argparse / json). os.path and a minimal pathlib (Path(), /, mkdir(parents=, exist_ok=), open, name / stem / parent) are modelled; other libraries are outside the interpreted subset (exit 2, never a silent pass)."
+
+# ---- session 3, late: exact-shape rules on glue code replaced by abstract evaluation (DESIGN 9.5b)
+CHECKS["C13"]["text"] = ("The regrouping is decided by evaluating the code (object-capable interpreter), not by the shape of its loops. O-group: "
+    "Output.group_by_type_result on 19 flat results (every entity kind alone and together, reversed, interleaved, entities carrying generic keys of later "
+    "markers, several comment items, blank comment texts, optional kinds only, the empty result) must file every entity once, unchanged, in order, in the bucket of "
+    "its kind, with the six documented buckets present and no other empty bucket; and Output(...).format() evaluated flat and grouped on the same parser output "
+    "(tables, every other kind, comments, nothing at all, ALTER / INDEX statements naming a missing table) in three modes: the grouped result is the regrouping of "
+    "the flat one. O-run: Parser.run hands the formatter's result through (also json_dump). O-final: the entity statement forms (incl. DATABASE / SCHEMA with a "
+    "TABLESPACE option) carry exactly one kind marker and land in its bucket. E1 rules: group_by_type is read only by Parser.run and class Output; no sorting in the "
+    "regrouping; keyword-derived marker keys of the grammar actions are known to the regrouping.")
+CHECKS["C13"]["engine"] = "objabs (group_by_type_result, Output.format, Parser.run evaluated abstractly) + E4 entities fragment + E1 who-may-read rules"
+CHECKS["C12"]["text"] += (" T-SHAPE.pk and T-JSONDUMP are evaluated, not matched: table objects are built and emitted in all 15 modes with primary_key absent / None / a "
+    "clause list (with and without an inline key column) and must come out with that list; run() is evaluated with and without json_dump on flat results of every kind and must "
+    "return json.dumps of the plain result; encoder calls carry no default= / skipkeys / cls.")
+CHECKS["C12"]["engine"] = CHECKS["C12"]["engine"].replace("T-JSON, T-JSONDUMP", "T-JSON") + " + objabs (table construction, Parser.run evaluated)"
+CHECKS["C10"]["text"] += (" The dialect() decorator is evaluated on every decorated class (abstract Field objects) and compared with the field model; Parser.run is evaluated in all 15 "
+    "modes, flat and grouped, against the formatter constructed with that mode.")
+CHECKS["C16"]["text"] += (" Unknown modes: Parser.run is evaluated with modes that are not in dialect_by_name (wrong case, empty, a near miss): it raises the package's "
+    "SimpleDDLParserException whose evaluated message names every valid mode; every valid mode is accepted. The error hooks are evaluated with parser attributes and "
+    "lexer flags compared before / after (no other effect).")
+CHECKS["C04"]["text"] += (" get_table_id is evaluated on pairs of spellings: one name in three delimiter styles and any case gives one id; different names, different schemas and a "
+    "missing schema give different ids.")
+CHECKS["C02"]["text"] += (" Inline constraint names (CONSTRAINT n before UNIQUE / PRIMARY KEY / NOT NULL / REFERENCES) are options of the column; whether a column carries a name / a "
+    "reference is kept in the configuration identity, so what the table-level fold does with such a column and with the columns after it is explored.")
+CHECKS["C01"]["text"] += " Parenthesised defaults (DEFAULT (NULL), DEFAULT (0)) belong to the option alphabet."
+CHECKS["C06"]["text"] += " kwnames also puts every keyword in the referenced-column position of an inline REFERENCES."
